@@ -15,7 +15,7 @@ from collections import Counter
 from .. import refdbus as R
 from .. import busbox as B
 from .. import explore
-from ..engine import Violation, worker_harness
+from ..engine import known_fingerprints, Violation, worker_harness
 from ..session import BusSession, Obs, NOC_RULE
 from ..models import matchrules as M
 from ..registry import claim
@@ -28,6 +28,7 @@ claim('C18', 'model_checking',
       'Trusts pyv/models/matchrules.py for filter matching. One monitor at a time in the quick tier. The bus shows a placeholder sender for messages of connections that have not completed Hello; only "not a name of another connection" is required there.',
       'DESIGN.md section 4 C18')
 
+MSEND_KINDS = ['bus-call', 'call-nodest', 'return-nodest', 'error-nodest', 'signal', 'call-B', 'peer-ping-nodest']
 FACTORY = 'pyv.checks.c18:Session'
 NAME = b'com.example.N'
 POLICY = """
@@ -46,7 +47,7 @@ VARIANTS = {
     'deny-bus-errors': '    <deny receive_sender="org.freedesktop.DBus" receive_type="error" receive_requested_reply="true"/>\n',
     'deny-bus-signals': '    <deny receive_sender="org.freedesktop.DBus" receive_type="signal" receive_member="NameOwnerChanged" receive_interface="org.freedesktop.DBus"/>\n',
 }
-FILTERS = {'all': [], 'signals': [b"type='signal'"], 'fromA': None, 'ns': [b"path_namespace='/t'"]}
+FILTERS = {'all': [], 'signals': [b"type='signal'"], 'fromA': None, 'ns': [b"path_namespace='/t'"], 'toA': 'destA'}
 PEERS = ['A', 'B']
 
 
@@ -83,12 +84,14 @@ class Session:
         self.tok = 0
         self.hits = {}
         for r in (self.a, self.b):
-            for l in PEERS + ['M']:
+            for l in PEERS + ['M', 'R0']:
                 r.connect_slot(l)
             r.method('A', 'AddMatch', [R.S(NOC_RULE)])
             r.method('B', 'AddMatch', [R.S(b"type='signal',interface='t.i'")])
-            for l in PEERS + ['M']:
+            r.method('B', 'AddMatch', [R.S(b"type='signal',interface='com.example.CannotReceive'")])      # subscribed, but its receive policy refuses these
+            for l in PEERS + ['M', 'R0']:
                 r.take(l)
+        self.refmon = False         # a second, unfiltered monitor (R0) attached together with a FILTERED monitor M
         self.mstate = 'plain'       # plain | owner | queued | rules | calling
         self.c_state = 'closed'
 
@@ -119,6 +122,7 @@ class Session:
             ops.append(['send', 'A', 'unowned', 'signal', 'noautostart'])
             ops.append(['bcast', 'A', 'ok'])
             ops.append(['bcast', 'A', 'cannot-send'])
+            ops.append(['bcast', 'A', 'cannot-receive'])
         if 'B' in live:
             for f in (0, 3):
                 ops.append(['req', 'B', f])
@@ -133,7 +137,8 @@ class Session:
             for f in sorted(FILTERS):
                 ops.append(['become', f])
         elif self.monitor is not None:
-            ops.append(['msend'])
+            for k in MSEND_KINDS:
+                ops.append(['msend', k])
         return ops
 
     # ---- helpers -----------------------------------------------------------------
@@ -173,7 +178,7 @@ class Session:
 
     def compare_runs(self, oa, ob, out, desc, multiset_ok=False):
         for l in set(oa) | set(ob):
-            if l == 'M' or l == self.monitor:
+            if l in ('M', 'R0') or l == self.monitor:
                 continue
             x, y = oa.get(l, []), ob.get(l, [])
             if x != y:
@@ -208,6 +213,8 @@ class Session:
         f = FILTERS[self.filter]
         if f is None:
             f = [b"sender='%s'" % run.uname['A']]
+        elif f == 'destA':
+            f = [b"destination='%s'" % run.uname['A']]
         rules = []
         for t in f:
             v = M.parse(t)
@@ -218,11 +225,36 @@ class Session:
 
     def check_monitor(self, run, sent, received_by_clients, out, desc):
         """sent: list of (writer label, Msg as written); received_by_clients: list of Obs from the bus at ordinary clients."""
-        box = run.take(self.monitor)
+        rules = self.filter_rules(run)
+        if self.refmon:
+            # filtered monitor M against the unfiltered reference monitor R0 (R0 itself is judged below as monitor 'all')
+            ref = run.take('R0')
+            # an error the bus synthesises for one of its OWN messages that a recipient's policy refused carries
+            # DESTINATION org.freedesktop.DBus in its header while the bus treats the refusing connection as its
+            # addressee: which of the two a destination= filter means for it is not specified -> not judged
+            selfaddr = lambda m_: m_.sender == R.BUS and m_.destination == R.BUS
+            gotm = Counter(R.canon_msg(o.msg) for o in run.take(self.monitor) if not selfaddr(o.msg))
+            wantm = Counter()
+            for o in ref:
+                m_ = o.msg
+                if selfaddr(m_):
+                    continue
+                v_ = M.MsgView(m_.mtype, {m_.sender} | ({NAME} if (self.owner(run) and run.uname.get(self.owner(run)) == m_.sender) else set()),
+                               {m_.destination} if m_.destination is not None else set(), m_.interface, m_.member, m_.path, m_.body, False)
+                if any(M.matches(r, v_, holder_is_addressee=True) for r in rules):
+                    wantm[R.canon_msg(m_)] += 1
+            if gotm != wantm:
+                missing, extra = wantm - gotm, gotm - wantm
+                k = sorted(missing or extra)[0]
+                out.append(Violation('monitor-filter-differs', 'missing' if missing else 'extra', '%s: a monitor with filter %r received %d messages, the unfiltered monitor\'s stream has %d matching ones; first difference: %s' %
+                                     (desc, [r.text for r in rules], sum(gotm.values()), sum(wantm.values()), k[:300]), None))
+            box = ref
+            rules = []
+        else:
+            box = run.take(self.monitor)
         got = Counter()
         for o in box:
             got[R.canon_msg(o.msg)] += 1
-        rules = self.filter_rules(run)
         expected = Counter()
         seen_bus = set()
 
@@ -302,7 +334,7 @@ class Session:
                 else:
                     c = run.slots[op[1]]
                     s = run.bus.next_serial(c)
-                    iface = 't.i' if op[2] == 'ok' else 'com.example.CannotSend'
+                    iface = {'ok': 't.i', 'cannot-send': 'com.example.CannotSend', 'cannot-receive': 'com.example.CannotReceive'}[op[2]]
                     m = R.signal(s, '/t/b', iface, 'Bc', [R.S(b'T%d' % self.tok)])
                 run.send(op[1], m)
                 if run is self.a:
@@ -359,6 +391,8 @@ class Session:
             f = FILTERS[op[1]]
             if f is None:
                 f = [b"sender='%s'" % self.a.uname['A']]
+            elif f == 'destA':
+                f = [b"destination='%s'" % self.a.uname['A']]
             c = self.a.slots['M']
             s = self.a.bus.next_serial(c)
             m = R.method_call(s, R.BUS, R.BUS_PATH, b'org.freedesktop.DBus.Monitoring', 'BecomeMonitor', [R.A('s', [R.S(x) for x in f]), R.U(0)])
@@ -369,9 +403,24 @@ class Session:
                 return out
             self.b.close_slot('M')
             self.monitor = 'M'
+            if op[1] != 'all':
+                # reference monitor without a filter: what a filtered monitor receives must be exactly the part of the
+                # reference monitor's stream that its filter matches (covers messages only monitors can see, such as the
+                # errors the bus synthesises when it refuses a delivery)
+                c0 = self.a.slots['R0']
+                s0 = self.a.bus.next_serial(c0)
+                self.a.send('R0', R.method_call(s0, R.BUS, R.BUS_PATH, b'org.freedesktop.DBus.Monitoring', 'BecomeMonitor', [R.A('s', []), R.U(0)]))
+                rep0 = self.a.take_reply('R0', s0)
+                if rep0 is None or rep0.kind != R.MT_RETURN:
+                    out.append(Violation('become-monitor-refused', 'BecomeMonitor', 'reference monitor: %r' % (rep0,), None))
+                    return out
+                self.b.close_slot('R0')
+                self.refmon = True
+                self.a.take('R0')
+                self.a.take('M')
             self.hit('become-' + self.mstate)
-            oa = self.observations(self.a, skip=('M',))
-            ob = self.observations(self.b, skip=('M',))
+            oa = self.observations(self.a, skip=('M', 'R0'))
+            ob = self.observations(self.b, skip=('M', 'R0'))
             self.compare_runs(oa, ob, out, desc, multiset_ok=True)
             # (iii) it owns nothing any more
             d = self.a.impl_key()
@@ -386,13 +435,33 @@ class Session:
         elif kind == 'msend':
             c = self.a.slots['M']
             s = self.a.bus.next_serial(c)
-            self.a.send('M', R.bus_call(s, 'GetId'))
-            self.a.take('M')
+            mk = op[1] if len(op) > 1 else 'bus-call'
+            m = {'bus-call': lambda: R.bus_call(s, 'GetId'),
+                 'call-nodest': lambda: R.method_call(s, None, '/m', 'm.i', 'Do', [R.S('m')]),
+                 'return-nodest': lambda: R.method_return(s, 4711, None, [R.S('m')]),
+                 'error-nodest': lambda: R.error(s, 4711, 'm.Err', None, [R.S('m')]),
+                 'signal': lambda: R.signal(s, '/m', 'm.i', 'Sig', [R.S('m')]),
+                 'call-B': lambda: R.method_call(s, self.a.uname.get('B') or b':1.9999', '/m', 'm.i', 'Do', [R.S('m')]),
+                 'peer-ping-nodest': lambda: R.method_call(s, None, '/', 'org.freedesktop.DBus.Peer', 'Ping', [])}[mk]()
+            self.a.send('M', m)
+            got = self.a.take('M')
+            addressed = [o for o in got if o.rserial == s and o.kind in (R.MT_RETURN, R.MT_ERROR)]
+            if addressed:
+                v = Violation('monitor-addressed', mk, 'a monitor that sent %s received an answer addressed to it: %r' % (mk, addressed[0]), None)
+                v.resynced = v.fingerprint in known_fingerprints('C18')
+                out.append(v)
             if not self.a.eof.get('M'):
-                out.append(Violation('sending-monitor-kept', 'eof', 'a monitor that sent a message was not disconnected', None))
+                v = Violation('sending-monitor-kept', mk, 'a monitor that sent a message (%s) was not disconnected' % mk, None)
+                v.resynced = v.fingerprint in known_fingerprints('C18')
+                out.append(v)
+                self.a.close_slot('M')
             self.monitor = None
             self.dead.add('M')
             self.a.slots['M'] = None
+            if self.refmon:
+                self.a.close_slot('R0')
+                self.refmon = False
+                self.dead.add('R0')
             self.hit('monitor-sends')
         # collect observations
         received = []
@@ -401,8 +470,8 @@ class Session:
                 if l != self.monitor:
                     received += list(self.a.inbox[l])
             self.check_monitor(self.a, sent, received, out, desc)
-        oa = self.observations(self.a, skip=('M',) if self.monitor else ())
-        ob = self.observations(self.b, skip=('M',) if self.monitor else ())
+        oa = self.observations(self.a, skip=('M', 'R0') if self.monitor else ())
+        ob = self.observations(self.b, skip=('M', 'R0') if self.monitor else ())
         if self.monitor is None and 'M' not in self.dead:
             pass
         self.compare_runs(oa, ob, out, desc, multiset_ok=(kind == 'disc'))
@@ -415,7 +484,7 @@ class Session:
     def key(self):
         import re
         ka = re.sub(r'serial=\d+', 'serial=*', self.a.impl_key())
-        return ka + '#' + repr((self.monitor, self.filter, self.mstate, self.c_state, sorted(self.dead)))
+        return ka + '#' + repr((self.monitor, self.filter, self.mstate, self.c_state, sorted(self.dead), self.refmon))
 
     def died(self):
         self.a.bus.h.close()
